@@ -64,7 +64,13 @@ var (
 		if d < len(fixed) {
 			return qt.Float(fixed[d])
 		}
-		return qt.Float(strconv.FormatFloat(r.Float64()*float64(int64(1)<<uint(r.Intn(40)))/1e6+1e-9, 'g', 3+r.Intn(12), 64))
+		// plain decimal spelling: an exponent with a + sign would not be one token ("+" is a symbol)
+		f := r.Float64()*float64(int64(1)<<uint(r.Intn(40)))/1e6 + 1e-9
+		txt := strconv.FormatFloat(f, 'f', 3+r.Intn(9), 64)
+		if v, err := strconv.ParseFloat(txt, 64); err != nil || v == float64(int64(v)) {
+			txt = "0.125"
+		}
+		return qt.Float(txt)
 	}}
 	vgFloatBig = valGen{"floatBig", true, func(r *rand.Rand, d int) qt.Value {
 		return qt.Float(pick(r, d, []string{"1e30", "2.5e21", "1e21", "123456789012345678901234.5", "1.5e300"}))
@@ -308,10 +314,10 @@ type c03Plan struct {
 func newC03Plan(tier string) *c03Plan {
 	p := &c03Plan{draws: 8, space: newFragSpace(false), stride: 1, nDeep: 8}
 	if tier == "thorough" {
-		p.draws = 120
+		p.draws = 400
 		p.space = newFragSpace(true)
-		p.stride = 6
-		p.nDeep = 200
+		p.stride = 3
+		p.nDeep = 600
 	}
 	p.nLeaf = 16
 	p.nComp = nBatches(p.space.Size()) / p.stride
@@ -670,7 +676,7 @@ func (c03) Finish(res *core.Result, cov map[string]any) []string {
 	cov["exhaustive"] = true
 	cov["leaf_classes_covered"] = res.NDistinct("leaf_classes")
 	cov["assumptions"] = []string{"two-valued model on non-NULL rows; numbers compare exactly as rationals (a float64 is its shortest round-trip decimal); strings compare bytewise on both sides; SIMILAR TO is translated to an anchored regular expression", "the WHERE expression is read with libpg_query (PostgreSQL 15 grammar), so PostgreSQL's operator precedence is the real one"}
-	cov["rule"] = "layer 1: every leaf class (operator x value kind x bracket x open side x formatting/escaping hazard; enumerated exhaustively and deterministically) with seeded value draws, rendered alone and compared with the query's meaning on probe rows around its constants. Layer 2: every depth<=2 compound over the fragment leaves (exhaustive in quick; 1:6 sample of the larger alphabet in thorough) and random deeper compounds: the formula PostgreSQL reads must be propositionally equivalent (full truth table up to 16 atoms) to the query's structure over the leaves' own SQL. Layer 3: compounds whose leaves are all clean are evaluated end to end on probe rows. Non-trivial = distinct leaf or compound whose probe rows contain both a satisfying and a falsifying row."
+	cov["rule"] = "layer 1: every leaf class (operator x value kind x bracket x open side x formatting/escaping hazard; enumerated exhaustively and deterministically) with seeded value draws, rendered alone and compared with the query's meaning on probe rows around its constants. Layer 2: every depth<=2 compound over the fragment leaves (exhaustive in quick; 1:3 sample of the larger alphabet in thorough) and random deeper compounds: the formula PostgreSQL reads must be propositionally equivalent (full truth table up to 16 atoms) to the query's structure over the leaves' own SQL. Layer 3: compounds whose leaves are all clean are evaluated end to end on probe rows. Non-trivial = distinct leaf or compound whose probe rows contain both a satisfying and a falsifying row."
 	floor(res.NDistinct("leaf_classes") >= 120, &reasons, "leaf classes covered %d", res.NDistinct("leaf_classes"))
 	floor(res.Counters["compositions_confirmed"] >= 1000, &reasons, "compositions confirmed %d", res.Counters["compositions_confirmed"])
 	floor(res.Counters["probe_rows"] >= 100000, &reasons, "probe rows %d", res.Counters["probe_rows"])
